@@ -74,7 +74,7 @@ func visible(c *core.Ctx, label string, lo, hi int) string {
 	return string(b)
 }
 
-var hosts = []string{"example.com", "www.example.com", "other.test", "third.example", "sub.wild.example", "fourth.example", "uncovered.invalid"}
+var hosts = []string{"example.com", "www.example.com", "other.test", "third.example", "sub.wild.example", "fourth.example", "fifth.example", "sixth.example", "uncovered.invalid"}
 var segs = []string{"a", "index.html", "p%20q", "%E3%81%82", "~user", "a.b-c_d", "x;y", "q=1", "@at", "looooooooooooooooooooooooooooooooooooooooooooooooooooooooooooooooooooooooooooooooooooooooooooooooooooooooooooooooooooooooooooooooooooooooooooooooooooooooooooooooooooooooooooooooooooooooooooooooooooooooooooooooooooooooooooooooooooooooooooooooooooooooooooooooooooooong"}
 
 // DrawURL draws a URL string whose Parse/String form is a fixpoint.
@@ -207,6 +207,31 @@ func DrawBundle(c *core.Ctx, maxEx int, withSigs bool) *LBundle {
 				c.Probe("identical response under two URLs")
 			}
 		}
+		if len(lb.Exchanges) > 0 && c.Chance("bundle.confusableHeaders", 1, 8) {
+			// two responses whose header sets differ only in how the same characters are
+			// divided between field lines, values and names: equal under careless
+			// formatting (fmt's %v, strings.Join with a space), different on the wire
+			prev := &lb.Exchanges[len(lb.Exchanges)-1]
+			if n := len(prev.Resp.Headers); n == 0 || prev.Resp.Headers[n-1].Name != "Variant-Key" {
+				r.Status, r.DirectMap = prev.Resp.Status, prev.Resp.DirectMap
+				r.Headers = append([]HV(nil), prev.Resp.Headers...)
+				switch c.Pick("bundle.confusableKind", 3) {
+				case 0:
+					prev.Resp.Headers = append(prev.Resp.Headers, HV{"X-List", "p"}, HV{"X-List", "q"})
+					r.Headers = append(r.Headers, HV{"X-List", "p q"})
+				case 1:
+					prev.Resp.Headers = append(prev.Resp.Headers, HV{"X-List", "1"}, HV{"X-Lisu", "2"})
+					r.Headers = append(r.Headers, HV{"X-List", "1] X-Lisu:[2"})
+				default:
+					prev.Resp.Headers = append(prev.Resp.Headers, HV{"X-List", "p"}, HV{"X-List", ""})
+					r.Headers = append(r.Headers, HV{"X-List", "p "})
+				}
+				if len(r.Body) < 6 {
+					r.Headers = append(r.Headers, HV{"x-uniq", fmt.Sprintf("#%05d", uniq)})
+				}
+				c.Probe("responses with confusable header sets")
+			}
+		}
 		lb.Exchanges = append(lb.Exchanges, LExchange{URL: u, Resp: r})
 		uniq++
 	}
@@ -301,8 +326,35 @@ func drawVariantSet(c *core.Ctx, lb *LBundle, u string, uniq *int) {
 		}
 		ents = append(ents, e)
 	}
-	mode := c.Pick("var.mode", 6) // 0-3 complete, 4 incomplete, 5 overlapping
+	mode := c.Pick("var.mode", 8) // 0-3 complete, 4 incomplete, 5 overlapping, 6-7 a key that is no possible key
 	expectErr := false
+	var foreignKey string
+	if mode >= 6 {
+		// one representation names a Variant-Key outside the possible keys: a value no axis
+		// lists (at a drawn axis), or a key with one component too few / too many. Whether
+		// the remaining coverage is complete (mode 6) or has a hole (mode 7): refused.
+		comp := strings.Split(keys[c.Pick("var.foreignBase", len(keys))], ";")
+		switch c.Pick("var.foreignKind", 4) {
+		case 0, 1:
+			comp[c.Pick("var.foreignAxis", len(comp))] = c.PickStr("var.foreignVal", "de", "zh", "deflate", "x")
+		case 2:
+			comp = append(comp, "extra")
+		default:
+			if len(comp) > 1 {
+				comp = comp[:len(comp)-1]
+			} else {
+				comp[0] = "zz"
+			}
+		}
+		foreignKey = strings.Join(comp, ";")
+		if mode == 7 && len(ents) >= 2 {
+			drop := c.Pick("var.drop", len(ents))
+			ents = append(ents[:drop:drop], ents[drop+1:]...)
+		}
+		ents = append(ents, ent{keys: []int{-1}})
+		expectErr = true
+		c.Probe("variants: a Variant-Key that is no possible key")
+	}
 	if mode == 4 && len(ents) >= 3 {
 		// (with two entries, dropping one leaves a single exchange, which is
 		// written without variants and is legal)
@@ -329,7 +381,11 @@ func drawVariantSet(c *core.Ctx, lb *LBundle, u string, uniq *int) {
 		e := ents[pi]
 		var ks []string
 		for _, k := range e.keys {
-			ks = append(ks, keys[k])
+			if k < 0 {
+				ks = append(ks, foreignKey)
+			} else {
+				ks = append(ks, keys[k])
+			}
 		}
 		r := DrawResp(c, "var.resp", *uniq)
 		*uniq++
@@ -349,7 +405,7 @@ func drawVariantSet(c *core.Ctx, lb *LBundle, u string, uniq *int) {
 		idx := len(lb.Exchanges)
 		lb.Exchanges = append(lb.Exchanges, LExchange{URL: u, Resp: r})
 		for _, k := range e.keys {
-			if pos[k] == -1 {
+			if k >= 0 && pos[k] == -1 {
 				pos[k] = idx
 			}
 		}
